@@ -10,6 +10,10 @@ pub enum TaskV {
 /// receiving end of the channel)
 pub uninterp spec fn chan_pending(r: &std::sync::mpsc::Receiver<TaskResult>) -> Multiset<TaskV>;
 
+/// tasks handed to the pool whose worker has not finished yet (it has not sent its result message); always part of
+/// chan_pending.  `ThreadPool::join` waits until there is none.
+pub uninterp spec fn chan_unsent(r: &std::sync::mpsc::Receiver<TaskResult>) -> Multiset<TaskV>;
+
 /// A8: the message a worker sends for task `t`
 pub closed spec fn result_matches(data: TaskResult, t: TaskV) -> bool {
     match t {
